@@ -135,6 +135,40 @@ impl GenerationCache {
         events: &[EventInfo],
         config: &GenerateConfig,
     ) -> Result<bool, CacheError> {
+        Self::needs_regeneration_with_visualization(
+            output_dir,
+            commands,
+            structs,
+            events,
+            config,
+            &[],
+        )
+    }
+
+    /// Fold the dependency visualisation into the record. Its text prints source locations and
+    /// counts (the line of each command, the number of indexed definitions) that none of the
+    /// other hashes cover, so when it is requested it is part of what a run would write.
+    pub fn with_visualization(mut self, texts: &[String]) -> Self {
+        if !texts.is_empty() {
+            let mut input = self.combined_hash.clone();
+            for text in texts {
+                input.push_str(&Self::compute_hash(text));
+            }
+            self.combined_hash = Self::compute_hash(&input);
+        }
+        self
+    }
+
+    /// Check if generation is needed, taking the discovered events and the text of the
+    /// dependency visualisation (empty when it is not requested) into account
+    pub fn needs_regeneration_with_visualization<P: AsRef<Path>>(
+        output_dir: P,
+        commands: &[CommandInfo],
+        structs: &HashMap<String, StructInfo>,
+        events: &[EventInfo],
+        config: &GenerateConfig,
+        visualization: &[String],
+    ) -> Result<bool, CacheError> {
         // Try to load previous cache
         let previous_cache = match Self::load(&output_dir) {
             Ok(cache) => cache,
@@ -159,7 +193,8 @@ impl GenerationCache {
         }
 
         // Generate current cache
-        let current_cache = Self::new_with_events(commands, structs, events, config)?;
+        let current_cache = Self::new_with_events(commands, structs, events, config)?
+            .with_visualization(visualization);
 
         // Compare combined hashes
         Ok(previous_cache.combined_hash != current_cache.combined_hash)
